@@ -6,7 +6,7 @@ from extract import Source
 
 ASSUMPTIONS = [
     'bounded model checking of the real text of sampling.rs; U256 -> 32 bits, U512 -> 64 bits (the 10^9 ratio scale needs 30 bits); f64 arithmetic and casts bit-precise',
-    'libm pow / log are havoc in the solver: replaced (textual adaptation .powf -> .mpowf, .log -> .mlog) by ARBITRARY values within the '
+    'libm pow / log are havoc in the solver: replaced (textual adaptation .powf -> .mpowf, .log -> .mlog; .ceil() -> .mceil() = the exact ceil, recorded as a ghost) by ARBITRARY values within the '
     'mathematically documented range (0<base<1: pow in [0,1) for positive exponents; log positive for 0<x<1); rand::gen_range -> arbitrary '
     'value in the range',
     'DECLINED: "the number of samples is at least what the FlyClient bound requires" - it depends on the numeric values of ln / pow, for '
@@ -26,6 +26,7 @@ def ex_sampling(repo):
     for p in out:
         p.sub(r'\.powf\(', '.mpowf(', required=False)
         p.sub(r'\.log\(', '.mlog(', required=False)
+        p.sub(r'\.ceil\(\)', '.mceil()', required=False)   # ceil itself is exact (bit-precise); the model records its result as a ghost
     return out
 
 
